@@ -71,6 +71,12 @@ def gen_case(rng, maxlen=6, fn=None):
             ps = rng.choice(["AX", "AXT_", "T_"])
             batch.append({"seqA": oa, "seqB": ob, "proA": [rng.choice(ps) for _ in oa], "proB": [rng.choice(ps) for _ in ob],
                           "wA": [rng.choice(WEIGHTS) for _ in oa], "wB": [rng.choice(WEIGHTS) for _ in ob]})
+    if fn == 4 and rng.random() < 0.4:
+        # the same batch also holds the MIRROR image of this pair (and sometimes a copy of it)
+        batch.append({"seqA": list(sb), "seqB": list(sa), "proA": list(pb), "proB": list(pa),
+                      "wA": None, "wB": None})
+        if rng.random() < 0.3:
+            batch.append({"seqA": list(sa), "seqB": list(sb), "proA": list(pa), "proB": list(pb), "wA": None, "wB": None})
     scorer = gen_scorer(rng, alpha)
     if fn == 6:
         if rng.random() < 0.3:      # same class sequence, different prosody
@@ -81,11 +87,16 @@ def gen_case(rng, maxlen=6, fn=None):
             if scorer[a, a] <= 0:
                 scorer[a, a] = F(rng.randint(1, 6), rng.choice([1, 2]))
         sec = bool(set(rch) & set(pa + pb + [c for o in batch for c in o["proA"]]))
+    wA, wB = [rng.choice(WEIGHTS) for _ in sa], [rng.choice(WEIGHTS) for _ in sb]
+    for o in batch:
+        if o["wA"] is None:       # mirror / copy of this pair: the weights go with the sequences
+            mirrored = o["seqA"] == sb and o["proA"] == pb and not (o["seqA"] == sa and o["proA"] == pa)
+            o["wA"], o["wB"] = (list(wB), list(wA)) if mirrored else (list(wA), list(wB))
     return {
         "batch": batch, "batch_pos": rng.randint(0, len(batch)),
         "fn": fn, "mode": mode, "sec": sec,
         "seqA": sa, "seqB": sb, "proA": pa, "proB": pb,
-        "wA": [rng.choice(WEIGHTS) for _ in sa], "wB": [rng.choice(WEIGHTS) for _ in sb],
+        "wA": wA, "wB": wB,
         "gop": rng.choice(GOPS), "scale": rng.choice(SCALES), "factor": rng.choice(FACTORS),
         "scorer": scorer, "r": rch, "alpha": alpha,
     }
